@@ -176,12 +176,9 @@ pub fn judge(rep: &mut Reporter, m: &Manifest, reg: &Registry, p: &P26, h: &Hist
         });
     }
     // coverage
-    for (t, lrw) in want.loop_runs.iter().enumerate() {
-        let _ = t;
-        for (&lp, &n) in lrw {
-            if lp == 0 {
-                continue;
-            }
+    for lrw in want.loop_runs.iter() {
+        for lp in 1..p.loop_parent.len() {
+            let n = lrw.get(&lp).copied().unwrap_or(0);
             let d = p.depth(lp);
             if n >= 2 && d >= 2 {
                 rep.count(&format!("nested_loop_iterated.depth{d}"));
